@@ -206,6 +206,82 @@ def run_manager(ops):
         loop.close()
 
 
+def manager_overlap_probe(scenario):
+    """ZeroconfManager operations that overlap a close which is still awaiting the engine's own shutdown (or whose shutdown
+    fails): in the end every engine the library created has been closed exactly once and the application's engine never."""
+    async def go():
+        from aioesphomeapi.zeroconf import ZeroconfManager
+        made = []
+
+        class SlowZc:
+            def __init__(self, zc=None, origin="Lib"):
+                self.zeroconf = zc or FakeZeroconf()
+                self.origin = origin
+                self.closed = 0
+                self.gate = asyncio.get_running_loop().create_future()
+                self.fail = False
+                made.append(self)
+
+            async def async_close(self):
+                await self.gate
+                if self.fail:
+                    raise OSError("shutdown failed")
+                self.closed += 1
+        with patch("aioesphomeapi.zeroconf.AsyncZeroconf", SlowZc):
+            app = SlowZc(origin="App")
+            app.gate.set_result(None)
+            mgr = ZeroconfManager()
+            first = mgr.get_async_zeroconf()
+            closing = asyncio.ensure_future(mgr.async_close())
+            await asyncio.sleep(0)
+            notes = []
+            if scenario == "get-during-close":
+                second = mgr.get_async_zeroconf()
+                notes.append("same" if second is first else "new")
+                first.gate.set_result(None)
+                await closing
+            elif scenario == "failed-close-then-app":
+                first.fail = True
+                first.gate.set_result(None)
+                try:
+                    await closing
+                except OSError:
+                    notes.append("close raised")
+                try:
+                    mgr.set_instance(app)
+                    notes.append("app accepted")
+                except RuntimeError:
+                    notes.append("app refused")
+                first.fail = False
+            else:
+                closing.cancel()
+                try:
+                    await closing
+                except asyncio.CancelledError:
+                    notes.append("close cancelled")
+                try:
+                    mgr.set_instance(app)
+                    notes.append("app accepted")
+                except RuntimeError:
+                    notes.append("app refused")
+                first.gate = asyncio.get_running_loop().create_future()
+                first.gate.set_result(None)
+            for z in made:
+                if not z.gate.done():
+                    z.gate.set_result(None)
+            for _ in range(2):
+                try:
+                    await mgr.async_close()
+                except Exception as e:  # noqa: BLE001
+                    notes.append("final close raised " + type(e).__name__)
+        return notes, [(z.origin, z.closed) for z in made]
+    loop = asyncio.new_event_loop()
+    try:
+        return loop.run_until_complete(go())
+    finally:
+        loop.close()
+
+
 def second_session_probe(host, second):
     """One APIClient, two sessions. In the first the name resolves; in the second nothing resolves (mDNS `second[0]`, OS resolver
     `second[1]`): the attempt must fail with a connection error and must not reach the socket layer with addresses of its own."""
@@ -335,6 +411,18 @@ def run(rep, tier, seed):
     if disagreements and not rep.violations:
         rep.violations.append(("C20/correspondence", "Model/Resolver.v and the implementation disagree; no violation of C20 found",
                                {"kind": "no-failing-input-found", "obligation": "correspondence Resolver.resolve / zrun ~ host_resolver.py, zeroconf.py", "first_disagreements": disagreements[:4]}))
+    for scenario in ("get-during-close", "failed-close-then-app", "cancelled-close-then-app"):
+        notes, engines = manager_overlap_probe(scenario)
+        rep.case(("manager-overlap", scenario), True, sample={"manager_overlap": scenario, "notes": notes, "engines": engines})
+        rep.bump("probe:manager-overlap")
+        lib_bad = [e for e in engines if e[0] == "Lib" and e[1] != 1]
+        app_bad = [e for e in engines if e[0] == "App" and e[1] != 0]
+        if app_bad:
+            rep.violation("C20/closed-application-instance", f"manager operations overlapping a close ({scenario}: {notes}): the application's zeroconf was closed {app_bad[0][1]} time(s)",
+                          {"kind": "manager-overlap", "scenario": scenario})
+        elif lib_bad:
+            rep.violation("C20/library-instance-not-closed", f"manager operations overlapping a close ({scenario}: {notes}): engines created by the library and how often each was closed: "
+                          f"{[e for e in engines if e[0] == 'Lib']} (each exactly once)", {"kind": "manager-overlap", "scenario": scenario})
     for host in ("dev.local", "dev", "printer.example.com"):
         for second in (("none", "empty"), ("err", "empty"), ("none", "err"), ("err", "err")):
             outs = second_session_probe(host, second)
@@ -352,6 +440,10 @@ def run(rep, tier, seed):
 
 def replay(path):
     d0 = json.loads(open(path).read()).get("replay", {})
+    if d0.get("kind") == "manager-overlap":
+        common.setup_impl_path()
+        print(manager_overlap_probe(d0["scenario"]))
+        return 0
     if d0.get("kind") == "second-session":
         common.setup_impl_path()
         print(second_session_probe(d0["host"], tuple(d0["second"])))
